@@ -363,3 +363,37 @@ func VerifH06() {
 	}
 	nd.Reach("H06.end")
 }
+
+// VerifH06b: concurrent reads through the gRPC server. Two goroutines read two different keys
+// (values of 1 byte or of more than one chunk) through the external client at the same time: each
+// gets its own key's content, and the happens-before monitor watches the server side (state shared
+// between concurrent request handlers).
+func VerifH06b() {
+	nd.RaceMonitor(true)
+	P := 1
+	if nd.Tier() == 1 {
+		P = 2
+	}
+	nd.Bound("H06b.preemption_bound", P)
+	concreteCounter = true
+	cfg := stdConfig()
+	w := &world{cfg: cfg, keys: []string{"a", "b"}, txs: []*rtx{nil}, vlen: 1}
+	w.d, w.c, _ = openExternal(cfg)
+	w.vlen = []int{1, 2049}[nd.Choice("len", 2)]
+	va, vb := w.freshVal(), w.freshVal()
+	nd.Assert(w.d.Set(ctx, "a", va) == nil && w.d.Set(ctx, "b", vb) == nil, "H06b.pre")
+	var gb []byte
+	var eb error
+	nd.SpawnRunsFirst(P == 1)
+	nd.SetPreemptionBound(P)
+	go func() { gb, eb = w.d.Get(ctx, "b") }()
+	ga, ea := w.d.Get(ctx, "a")
+	nd.JoinAll()
+	nd.SetPreemptionBound(0)
+	nd.Assert(ea == nil && eb == nil, "H06b.reads-ok")
+	if ea == nil && eb == nil {
+		nd.Assert(nd.EqBytes(ga, va), "H06b.key-read-with-its-own-content")
+		nd.Assert(nd.EqBytes(gb, vb), "H06b.key-read-with-its-own-content")
+	}
+	nd.Reach("H06b.end")
+}
